@@ -112,6 +112,8 @@ def render_line(it, s):
         if it.get('eq', '=') == '=':
             return it['name'] + s['cgap'] + '=' + s['cgap'] + exprs.render(it['e'], sp)
         return it['name'] + s['ws1'] + 'EQU' + s['ws1'] + exprs.render(it['e'], sp)
+    if t == 'str':
+        return it['d'] + s['ws1'] + G.render_string(it['chars'], it.get('q', '"'))
     return G.render_item(it)
 
 
@@ -134,7 +136,7 @@ def render_surface(items, surf):
             else:
                 kinds.update({'letter-case', 'whitespace-kind-or-amount'})
         # joins
-        if it['t'] == 'label' and s['join'] and k + 1 < len(flat) and flat[k + 1]['t'] in ('instr', 'data', 'fill', 'zero'):
+        if it['t'] == 'label' and s['join'] and k + 1 < len(flat) and flat[k + 1]['t'] in ('instr', 'data', 'fill', 'zero', 'str'):
             nxt = render_line(flat[k + 1], surf[k + 1])
             text = text + s['joinws'] + nxt
             kinds.add('label-in-front-of-statement')
